@@ -153,10 +153,13 @@ def _diff_fields(exp, obs):
         if k in exp and exp[k] != obs.get(k):
             hard.append(f"{k} (C03 e-mail unit clause)")
     if "full" in exp and exp["full"] != obs.get("full"):
-        (soft if obs.get("full", [""])[0] == "plainesc" else hard).append("full (get_full_text() is not the body)")
+        (soft if any(t[0] == "plainesc" for t in obs.get("full", [])) or len(obs.get("full", [])) > 1
+         else hard).append("full (get_full_text() is not the body)")
     for k in ("subj", "from", "to", "cc", "bcc", "rt", "date", "mid", "irt", "plain", "html"):
         if exp.get(k) != obs.get(k):
-            (soft if k == "plain" and obs.get(k, [""])[0] == "plainesc" else hard).append(k)      # DC4
+            dc11 = k == "plain" and len(obs.get(k) or []) > 1 and (obs[k][:1] == exp[k] or obs[k][0][0] == "plainesc")
+            dc4 = k == "plain" and any(t[0] == "plainesc" for t in obs.get(k) or [])
+            (soft if dc11 or dc4 else hard).append(k)                                               # DC11 / DC4
     ea, oa = exp.get("atts", []), [a for a in obs.get("atts", []) if a["bytes"][0] != "inline"]     # DC6
     if len(ea) != len(oa):
         hard.append(f"atts(count {len(oa)} for {len(ea)})")
@@ -192,8 +195,9 @@ def run(ctx):
     f_gen = pool.submit(run_tlc, "Mbox", f"SPECIFICATION GenSpec\nCONSTANTS MaxLen = {lmax}\n Deviations = {{}}\n",
                         scratch=ctx.scratch, dump=dump, workers=2)
     f_mail = pool.submit(run_tlc, "MailGen", gcfg, scratch=ctx.scratch, dump=mdump, timeout=1500, workers=4)
-    f_msens = pool.submit(run_tlc, "MailGen", gcfg.replace("{}", '{"WalkNoAttachmentSkip"}').replace(f"K = {K}", "K = 1"),
-                          scratch=ctx.scratch, expect_fail=True, workers=2)
+    f_msens = {dev: pool.submit(run_tlc, "MailGen", gcfg.replace("{}", '{"%s"}' % dev).replace(f"K = {K}", "K = 1"),
+                                scratch=ctx.scratch, expect_fail=True, workers=2)
+               for dev in ("WalkNoAttachmentSkip", "WalkLastPlainWins")}
 
     rm = f_mail.result()
     ev.tlc(f"MailGen: abstract messages (cover K={K}) + body-selection theorem", rm)
@@ -231,10 +235,11 @@ def run(ctx):
         ev.tlc(f"Mbox sensitivity: deviation {dev} must break Inv_SplitIsDecl", rs, note="expected violation")
         if not rs.violated:
             raise MachineryError(f"Mbox sensitivity run ({dev}) did not fail: invariant vacuous")
-    rs = f_msens.result()
-    ev.tlc("MailGen sensitivity: walk without attachment skip must break Inv_BodySelection", rs, note="expected violation")
-    if not rs.violated:
-        raise MachineryError("MailGen sensitivity run did not fail: Inv_BodySelection vacuous")
+    for dev, f in f_msens.items():
+        rs = f.result()
+        ev.tlc(f"MailGen sensitivity: deviation {dev} must break Inv_BodySelection", rs, note="expected violation")
+        if not rs.violated:
+            raise MachineryError(f"MailGen sensitivity run ({dev}) did not fail: Inv_BodySelection vacuous")
 
     # ------------------------------------------------------------------ 4b (started here, collected below)
     ltraces, lmeta = [], []
@@ -372,7 +377,8 @@ def _worker_mail(job, wd):
             try:
                 rs = list(router.get_extractor("direct." + ext)(io.BytesIO(data), None))
                 # "the attached file on its own": result type and full text
-                direct_cache[key] = (type(rs[0]).__name__, rs[0].get_full_text()) if len(rs) == 1 else None
+                # (an archive yields one result per member)
+                direct_cache[key] = [(type(r).__name__, r.get_full_text()) for r in rs] or None
             except Exception:
                 direct_cache[key] = None
         return direct_cache[key]
@@ -386,10 +392,10 @@ def _worker_mail(job, wd):
             return ["exc", "?", 0]
         if not rs:
             return g.ABSENT
-        if len(rs) != 1 or bt[0] not in ("bytes", "bytesnl"):
+        if bt[0] not in ("bytes", "bytesnl"):
             return g.UNKNOWN
         data = c.attachments[idx].data.getvalue()
-        ft = (type(rs[0]).__name__, rs[0].get_full_text())
+        ft = [(type(r).__name__, r.get_full_text()) for r in rs]
         pl, j = bt[1], bt[2]
         if ft == full_text(g.EXT[pl] if pl != "bin" else "txt", data):
             return ["ft", pl, j]
